@@ -152,10 +152,10 @@ const CONSUMERS: [&[&str]; 3] = [&["view"], &["fold"], &["stat", "-s", "sum"]];
 
 fn judge_rejected(o: &Out) -> Result<(), String> {
     if o.ok() {
-        return Err(format!("accepted (exit 0), stdout {:?}", o.stdout_str()));
+        return Err(format!("accepted (exit 0), stdout ({} bytes) starts {:?}", o.stdout.len(), String::from_utf8_lossy(&o.stdout[..o.stdout.len().min(200)])));
     }
     if !o.stdout.is_empty() {
-        return Err(format!("{} but wrote stdout {:?}", o.status_str(), o.stdout_str()));
+        return Err(format!("{} but wrote stdout ({} bytes) starting {:?}", o.status_str(), o.stdout.len(), String::from_utf8_lossy(&o.stdout[..o.stdout.len().min(200)])));
     }
     if o.panicked() {
         return Err(format!("panicked: {}", o.panic_site()));
@@ -191,6 +191,31 @@ fn eval_cli(input: &[u8], consumer: &[&str], what: &str, class: &str, scratch: &
             ))
         }
     }
+}
+
+/// A 1-D npy file as sfs writes it whose total length is `total` bytes (`total` = 128 mod 8 header
+/// plus values), then damaged: `delta` > 0 appends that many filler bytes, `delta` < 0 cuts.
+fn sized_npy(total: usize, delta: i64) -> Vec<u8> {
+    let n_vals = (total - 128) / 8;
+    let arr = Array::new((0..n_vals).map(|x| (x % 1000) as f64 + 0.5).collect::<Vec<_>>(), vec![n_vals]).expect("shape");
+    let mut v = Vec::with_capacity(total + 64);
+    arr.write_npy(&mut v).expect("write");
+    drop(arr);
+    assert_eq!(v.len(), 128 + 8 * n_vals, "header of a 1-D npy file is 128 bytes");
+    if delta >= 0 {
+        v.extend((0..delta as usize).map(|i| filler_byte(0, i)));
+    } else {
+        v.truncate(v.len() - (-delta) as usize);
+    }
+    v
+}
+
+fn eval_sized(total: usize, delta: i64, consumer: usize, scratch: &Scratch) -> Option<Viol> {
+    let v = sized_npy(total, delta);
+    let what = format!("a {}-byte npy file {} {} bytes", 128 + 8 * ((total - 128) / 8), if delta >= 0 { "followed by" } else { "cut short by" }, delta.abs());
+    eval_cli(&v, CONSUMERS[consumer], &what, "size-ladder", scratch).map(|(k, w, _)| {
+        (k, w, J::obj([("kind", J::s("c16-sized")), ("total", J::u(total)), ("delta", J::Int(delta)), ("consumer", J::u(consumer))]))
+    })
 }
 
 // ---- text damage ----------------------------------------------------------------------------
@@ -468,6 +493,45 @@ pub fn run(tier: Tier) -> i32 {
         });
     }
 
+    // file-size ladder: valid files whose length sits at, just below and just above a power of two
+    // (buffer sizes, read limits), each with bytes appended or cut off
+    {
+        let exps: Vec<u32> = if tier.thorough() { vec![13, 16, 17, 20, 22, 24, 25, 26, 27, 28] } else { vec![13, 16, 20, 24, 26] };
+        let mut jobs: Vec<(usize, i64, usize)> = Vec::new();
+        for &e in &exps {
+            let c = 1usize << e;
+            for total in [c - 8, c, c + 8] {
+                for delta in [1i64, 8, 16, -1, -8] {
+                    // all three consumers up to 16 MiB; above that `stat` for every damage and all three
+                    // for the appended value
+                    for consumer in 0..3 {
+                        if e > 24 && consumer != 2 && delta != 8 {
+                            continue;
+                        }
+                        jobs.push((total, delta, consumer));
+                    }
+                }
+            }
+        }
+        // the largest files run four at a time (each holds the file and the child's copy of it)
+        let (small, large): (Vec<_>, Vec<_>) = jobs.iter().cloned().partition(|j| j.0 < (1 << 25));
+        let mut res: Vec<Option<Viol>> = par_map(small.len(), |i| eval_sized(small[i].0, small[i].1, small[i].2, &scratch));
+        for chunk in large.chunks(4) {
+            res.extend(par_map(chunk.len(), |i| eval_sized(chunk[i].0, chunk[i].1, chunk[i].2, &scratch)));
+        }
+        for v in res.into_iter().flatten() {
+            rep.violation(v.0, v.1, v.2);
+        }
+        rep.part(Part {
+            name: "cli: file-size ladder".into(),
+            evaluations: jobs.len() as u64,
+            nontrivial: jobs.len() as u64,
+            note: format!("1-D npy files of 2^e - 8, 2^e and 2^e + 8 bytes for e in {exps:?}, each followed by 1 / 8 / 16 bytes or cut short by 1 / 8 bytes, through view / fold / stat (above 16 MiB: stat for every damage, all three for the appended value): all rejected without output"),
+            exhaustive: true,
+            extra: vec![],
+        });
+    }
+
     // declared shapes whose product overflows 64 bits and is congruent to the number of values modulo 2^64
     {
         let np = Spelling::numpy();
@@ -660,6 +724,10 @@ pub fn replay(case: &J) -> Option<Vec<String>> {
                 Ok(Err(_)) => Some(vec![]),
                 other => Some(vec![format!("C16|lib|damaged-npy :: read_npy returned {other:?}, expected Err")]),
             }
+        }
+        "c16-sized" => {
+            let scratch = Scratch::new("c16r");
+            Some(eval_sized(case.get("total")?.as_i64()? as usize, case.get("delta")?.as_i64()?, case.get("consumer")?.as_i64()? as usize, &scratch).into_iter().map(|(k, w, _)| format!("{k} :: {w}")).collect())
         }
         "c16-pipe" => {
             let argv: Vec<String> = case.get("argv")?.as_arr()?.iter().filter_map(|x| x.as_str().map(|s| s.to_string())).collect();
